@@ -197,6 +197,26 @@ def run(ctx):
             out.append(k + b"\t" + c)
         return b"\n".join(out)
     rel(ctr, "acgt", [False, True], "acgt", decode_acgt)
+    # the pip flavour's run_cli() (pip/src/lib.rs) is the same cli() behind a Python entry point: a handful of accepted and
+    # refused vectors through it must behave like the binary
+    import sys
+    pyd = vlib.build_py()
+    picks = [v for v in chosen if v["accept"]][:6] + [v for v in chosen if not v["accept"]][:4]
+    for j, v in enumerate(picks):
+        o = v["o"]
+        if o.get("stdin"):
+            continue
+        p1, out1 = run_cli(ctx, cli, o, inp, alt, "bin_%d" % j)
+        d1 = digest(o, result_file(o, out1))
+        clean(out1)
+        out2 = ctx.path("pycli_%d" % j)
+        clean(out2)
+        linp = inp + ".clean.fa" if (o["cmd"] == "cgr" and o["k"] == -1) else inp
+        p2 = vlib.sh([sys.executable, os.path.join(vlib.ROOT, "py", "runcli.py")] + args_of(o, linp, out2, alt), env={"PYK_DIR": pyd}, timeout=600)
+        d2 = digest(o, result_file(o, out2))
+        clean(out2)
+        allev.append({"ev": "eq", "what": "binary = pykmertools.run_cli()", "o": o, "a": d1 if v["accept"] else "refused", "b": d2 if v["accept"] else
+                      ("refused" if d2 == "missing" else "created")})
     with open(ev, "w") as f:
         for e in allev:
             f.write(json.dumps(e) + "\n")
